@@ -72,3 +72,26 @@ pub fn c20_native_deep(_inp: &Inp) -> Verdict {
     }
     Verdict::Held
 }
+
+/// Native corroboration for the repetition query: scanning a 300 000-entry history for a hash
+/// that does not occur, on a 2 MiB thread.
+pub fn c20_native_query(_inp: &Inp) -> Verdict {
+    #[cfg(not(kani))]
+    {
+        let h = std::thread::Builder::new()
+            .stack_size(2 * 1024 * 1024)
+            .spawn(|| {
+                let mut l: List<Zobrist> = List::new();
+                for k in 0..300_000u64 {
+                    l = l.append(Zobrist::from_raw(k + 10));
+                }
+                let r = arimaa_engine_step::engine::verif_hooks::hash_history_contains_hash_twice(&l, &Zobrist::from_raw(1));
+                std::mem::forget(l);
+                r
+            })
+            .unwrap();
+        let r = h.join().unwrap();
+        assert!(!r);
+    }
+    Verdict::Held
+}
